@@ -24,6 +24,8 @@ from asphalt.core import (  # noqa: E402
     add_resource_factory,
     add_teardown_callback,
     get_resource,
+    inject,
+    resource,
     start_component,
 )
 from director import Director, backend_options, jump, run_guarded, settle  # noqa: E402
@@ -32,6 +34,27 @@ from director import Director, backend_options, jump, run_guarded, settle  # noq
 _R0, _R2 = type("R0", (), {}), type("R2", (), {})
 TYPES = [_R0, type("R1", (_R0,), {}), _R2, type("R3", (_R2,), {})]
 NAMES = ["default"] + [f"n{i}" for i in range(1, 20)]
+
+
+def T(i):
+    """the type object for type index i.  Index 2 is a parametrised generic: every evaluation gives a new object
+    that is equal to, but not identical with, the previous one -- types are compared by equality"""
+    if i == 2:
+        return list[_R2]
+    return TYPES[i]
+
+
+class FalsyCallback:
+    """a teardown callback that is an empty container with __call__"""
+
+    def __init__(self, fn):
+        self.fn = fn
+
+    def __call__(self):
+        return self.fn()
+
+    def __len__(self):
+        return 0
 TIMEOUT = 20
 
 
@@ -122,7 +145,7 @@ def make_classes(prog, d, state):
                     _, types, name, fac = a
                     v = Pub(i, state["npub"], fac)
                     state["npub"] += 1
-                    ts = [TYPES[t] for t in types]
+                    ts = [T(t) for t in types]
                     if fac:
                         if state["r"].random() < 0.5:
                             async def factory(v=v):       # an asynchronous factory
@@ -143,22 +166,40 @@ def make_classes(prog, d, state):
                         else:
                             add_resource_factory(factory, NAMES[name], types=ts)
                     else:
+                        kw = {}
+                        if state["r"].random() < 0.4:
+                            # the resource comes with a teardown callback (every other one a falsy callable object):
+                            # it runs, once, when the surrounding context is left
+                            ran = state.setdefault("res_td_ran", [])
+                            cbf = (lambda seq=v.seq: ran.append(seq))
+                            kw["teardown_callback"] = FalsyCallback(cbf) if v.seq % 2 else cbf
                         if name == 0 and state["r"].random() < 0.5:
-                            add_resource(v, types=ts)
+                            add_resource(v, types=ts, **kw)
                         else:
-                            add_resource(v, NAMES[name], ts)
+                            add_resource(v, NAMES[name], ts, **kw)
+                        if kw:
+                            state.setdefault("res_td_expected", []).append(v.seq)
+                    if state["r"].random() < 0.5:
+                        ts.clear()          # the caller's list of types is the caller's: what was registered is a copy
                 elif k == "Wait":
                     try:
-                        if state["r"].random() < 0.3:
-                            v = await wait_beside_another(TYPES[a[1]], NAMES[a[2]])
+                        rr = state["r"].random()
+                        if rr < 0.3:
+                            v = await wait_beside_another(T(a[1]), NAMES[a[2]])
+                        elif rr < 0.5:
+                            # the request is made by dependency injection into a function the component calls
+                            async def needs(*, res=resource(NAMES[a[2]])):
+                                return res
+                            needs.__annotations__ = {"res": T(a[1])}
+                            v = await inject(needs)()
                         else:
-                            v = await get_resource(TYPES[a[1]], NAMES[a[2]])
+                            v = await get_resource(T(a[1]), NAMES[a[2]])
                     except anyio.get_cancelled_exc_class():
                         d.obs("Cancelled", i)
                         raise
                     d.obs("Got", i, a[1], a[2], v.j() if isinstance(v, Pub) else ["?"])
                 elif k == "GetOpt":
-                    v = await get_resource(TYPES[a[1]], NAMES[a[2]], optional=True)
+                    v = await get_resource(T(a[1]), NAMES[a[2]], optional=True)
                     d.obs("Got", i, a[1], a[2], None if v is None else v.j())
                 elif k == "Fail":
                     d.obs("Failed", i)
@@ -294,8 +335,8 @@ async def run_case(case):
             still_waiting = sorted(d.waiting)
             finished = done.is_set()
             table = []
-            for ti, t in enumerate(TYPES):
-                for name, v in ctx.get_resources(t).items():
+            for ti in range(len(TYPES)):
+                for name, v in ctx.get_resources(T(ti)).items():
                     table.append([ti, NAMES.index(name) if name in NAMES else -1, v.j() if isinstance(v, Pub) else ["?"]])
             if not finished:
                 starter_scope.cancel()
@@ -311,6 +352,7 @@ async def run_case(case):
             "mode": case.get("mode"),
             "steps": steps, "outcome": result.get("outcome"), "finished": finished, "late": late,
             "still_waiting": still_waiting, "table": table, "teardown": [o[1] for o in td],
+            "res_td": {"expected": state.get("res_td_expected", []), "ran": state.get("res_td_ran", [])},
             "ghost_stops": [k for k in state.get("svc_stop", []) if k not in state.get("svc_up", set())]}
 
 
